@@ -92,7 +92,7 @@ def restore_knobs():
             setattr(obj, attr, old)
 
 
-def gen_stalls(rng, funcs, p=0.3):
+def gen_stalls(rng, funcs, p=0.3, max_line=36):
     """Swarm option: thread-stall faults for this run ({} most of the time).  Either any pre-emption point may turn into a stall, or one
     (sometimes two) of the property's anchor functions is singled out and threads running it are descheduled at some of its lines."""
     if rng.random() >= p:
@@ -102,7 +102,28 @@ def gen_stalls(rng, funcs, p=0.3):
     f = rng.choice(funcs)
     if rng.random() < 0.35:
         # one deep change point: the thread that reaches one given line of the function sits there for a long while
-        return {'focus_stall': [f, 1.0, rng.choice([0.05, 0.2, 0.5]), rng.randrange(1, 36), rng.choice([1, 2, 4])]}
+        return {'focus_stall': [f, 1.0, rng.choice([0.05, 0.2, 0.5]), rng.randrange(1, max_line), rng.choice([1, 2, 4])]}
     if len(funcs) > 1 and rng.random() < 0.3:
         f = sorted(rng.sample(funcs, 2))
     return {'focus_stall': [f, rng.choice([0.05, 0.15, 0.3]), rng.choice([0.01, 0.05, 0.2])]}
+
+
+def line_offset(module, qualname, needle, default=None, nth=0):
+    """Line offset (relative to the def line) of the nth source line of module.qualname that contains `needle`; used by generators
+    to plant a deep stall at a named place without hard-coding line numbers.  Falls back to `default` when the text is not there."""
+    import importlib
+    import inspect
+    try:
+        obj = importlib.import_module(module)
+        for part in qualname.split('.'):
+            obj = getattr(obj, part)
+        while hasattr(obj, '__wrapped__'):
+            obj = obj.__wrapped__
+        lines, first = inspect.getsourcelines(obj)
+        code_first = obj.__code__.co_firstlineno
+        hits = [i for i, l in enumerate(lines) if needle in l]
+        if len(hits) > nth:
+            return first + hits[nth] - code_first
+    except Exception:
+        pass
+    return default
